@@ -103,6 +103,11 @@ func materialise(dir string, s *Spec) error {
 	if err := writeFile(filepath.Join(dir, "w", "conv.go"), s.ConverterSource()); err != nil {
 		return err
 	}
+	if len(s.Enums) > 0 {
+		if err := writeFile(filepath.Join(dir, "w", "te", "te.go"), s.EnumTargetSource()); err != nil {
+			return err
+		}
+	}
 	if s.Wrap == "wrapErrorsUsing" {
 		if err := writeFile(filepath.Join(dir, "w", "perr", "perr.go"), perrSource); err != nil {
 			return err
@@ -160,6 +165,10 @@ func (s *Spec) TestSource() string {
 		if s.Structs[id].MethodSrc {
 			fmt.Fprintf(&b, "\t\t\"S%d\": {{\"S%d.Calc%d\", \"Calc%d\"}},\n", id, id, id, id)
 		}
+	}
+	b.WriteString("\t},\n\tEnums: map[string]int{\n")
+	for _, id := range sortedIDs(s.Enums) {
+		fmt.Fprintf(&b, "\t\t\"SE%d\": %d,\n", id, s.Enums[id])
 	}
 	b.WriteString("\t},\n\tCtor: map[string]string{\n")
 	for _, id := range sortedIDs(s.Structs) {
@@ -309,7 +318,10 @@ func (e *Engine) RunWorld(res *worldResult, checks int, seed uint64, failfile st
 	err := cmd.Run()
 	res.Output = out.String()
 	if b, rerr := os.ReadFile(stats); rerr == nil {
-		_ = json.Unmarshal(b, &res.Stats)
+		var st map[string]any
+		if json.Unmarshal(b, &st) == nil {
+			res.Stats = mergeStats(res.Stats, st)
+		}
 	}
 	if err != nil {
 		if _, ok := err.(*exec.ExitError); ok {
@@ -387,12 +399,12 @@ func worldSeed(seed uint64, prop string, i int) uint64 {
 
 // Check runs the C04 or C07 check.
 func Check(id, tier string, seed uint64, repo, vd string) (*gensim.Outcome, error) {
-	nWorlds, checks := 24, 300
+	nWorlds, checks, cold := 24, 220, 20
 	if id == "C07" {
 		checks = 60
 	}
 	if tier == "thorough" {
-		nWorlds, checks = 320, 2000
+		nWorlds, checks, cold = 320, 1600, 100
 		if id == "C07" {
 			checks = 300
 		}
@@ -418,6 +430,17 @@ func Check(id, tier string, seed uint64, repo, vd string) (*gensim.Outcome, erro
 			r, err := e.BuildWorld(s, i)
 			if err == nil && !r.Rejected {
 				err = e.RunWorld(r, checks, worldSeed(seed, id, i), "")
+			}
+			// cold starts (C04): fresh processes, so that the first-ever calls of a method in
+			// a process are the concurrent ones (lazily initialised hidden state)
+			for k := 0; err == nil && id == "C04" && !r.Rejected && !r.Failed && k < cold; k++ {
+				err = e.RunWorld(r, 4, worldSeed(seed, id, i)+uint64(k)*7919+1, "")
+				if r.Stats != nil {
+					if c, ok := r.Stats["counters"].(map[string]any); ok {
+						x, _ := c["c04.cold_processes"].(float64)
+						c["c04.cold_processes"] = x + 1
+					}
+				}
 			}
 			if err == nil && id == "C07" && !r.Rejected {
 				err = e.checkNoErrClause(r, i)
@@ -518,6 +541,9 @@ func Check(id, tier string, seed uint64, repo, vd string) (*gensim.Outcome, erro
 			}
 		}
 		_ = os.RemoveAll(r.Dir)
+	}
+	if rejected*4 > ran+rejected {
+		return nil, &vnode.BuildError{Msg: fmt.Sprintf("%d of %d worlds were rejected (goverter refused them or the emitted code / harness did not compile) — the world generator or the tree under test is off; first reasons: %v", rejected, ran+rejected, rejectSamples)}
 	}
 	if ran == 0 {
 		return nil, &vnode.BuildError{Msg: fmt.Sprintf("all %d worlds were rejected by goverter; first: %v", rejected, rejectSamples)}
@@ -829,4 +855,32 @@ func SelftestC04Sensitivity(seed uint64, repo string) (string, error) {
 		return out, &vnode.BuildError{Msg: fmt.Sprintf("C04 sensitivity: only %d of %d planted hidden-state mutants were caught\n%s", caught, planted, out)}
 	}
 	return out + fmt.Sprintf("\nc04 sensitivity ok: %d of %d planted hidden-state mutants caught", caught, planted), nil
+}
+
+// mergeStats adds the counters and distinct-set sizes of one process run to the total.
+func mergeStats(a, b map[string]any) map[string]any {
+	if a == nil {
+		return b
+	}
+	for _, sec := range []string{"counters", "distinct"} {
+		am, _ := a[sec].(map[string]any)
+		bm, _ := b[sec].(map[string]any)
+		if am == nil {
+			am = map[string]any{}
+		}
+		for k, v := range bm {
+			x, _ := am[k].(float64)
+			y, _ := v.(float64)
+			am[k] = x + y
+		}
+		a[sec] = am
+	}
+	if as, ok := a["samples"].([]any); ok {
+		if bs, ok := b["samples"].([]any); ok && len(as) < 3 {
+			a["samples"] = append(as, bs...)
+		}
+	} else {
+		a["samples"] = b["samples"]
+	}
+	return a
 }
